@@ -33,7 +33,7 @@ pub struct Site {
 pub const FP_HEX: &str = "B3:5B:68:D5:CE:84:50:55:7C:6A:55:FD:64:B5:1F:EA:C1:10:CB:36:D6:A3:52:1C:59:48:DB:3A:38:0A:34:A9";
 pub const FP_BYTES: [u8; 32] = [0xB3, 0x5B, 0x68, 0xD5, 0xCE, 0x84, 0x50, 0x55, 0x7C, 0x6A, 0x55, 0xFD, 0x64, 0xB5, 0x1F, 0xEA, 0xC1, 0x10, 0xCB, 0x36, 0xD6, 0xA3, 0x52, 0x1C, 0x59, 0x48, 0xDB, 0x3A, 0x38, 0x0A, 0x34, 0xA9];
 
-pub const SITES: [Site; 9] = [
+pub const SITES: [Site; 11] = [
     Site { url: Some("https://www.example.com"), android_host: None, rp: Some("example.com"), effective: "example.com" },
     Site { url: Some("https://example.com"), android_host: None, rp: None, effective: "example.com" },
     Site { url: Some("https://login.example.org:8443"), android_host: None, rp: None, effective: "login.example.org" },
@@ -43,7 +43,13 @@ pub const SITES: [Site; 9] = [
     Site { url: Some("https://xn--bcher-kva.example.com"), android_host: None, rp: None, effective: "xn--bcher-kva.example.com" },
     Site { url: Some("https://a.b.example.org"), android_host: None, rp: Some("example.org"), effective: "example.org" },
     Site { url: Some("HTTPS://Example.COM:443"), android_host: None, rp: Some("example.com"), effective: "example.com" },
+    // names below "localhost" are ordinary registrable names (only the literal host "localhost" is special)
+    Site { url: Some("https://app.localhost"), android_host: None, rp: None, effective: "app.localhost" },
+    Site { url: Some("https://login.other.localhost:8443"), android_host: None, rp: Some("other.localhost"), effective: "other.localhost" },
 ];
+
+/// RP IDs that only exist at the CTAP2 level (the client would never produce them): preload site index 100 + k
+pub const CTAP_ONLY_RPS: [&str; 2] = ["Login.Example.COM", "EXAMPLE.com"];
 
 impl Site {
     pub fn origin(&self) -> Origin<'static> {
@@ -98,6 +104,13 @@ pub struct RegOp {
     /// attestation conveyance preference: 0 none (default), 1 indirect, 2 direct, 3 enterprise
     #[serde(default)]
     pub attestation: u8,
+    /// extensions requested: bit 0 credProps, bit 1 PRF with one input, bit 2 a second PRF input
+    #[serde(default)]
+    pub ext: u8,
+    /// exclude list: 0 absent, 1 empty, 2 names ids nobody holds, 3 names a credential held for another RP
+    /// (reference store only; the shipped map ignores the RP there, known finding D5)
+    #[serde(default)]
+    pub exclude: u8,
 }
 
 #[derive(Clone, Debug, Serialize, Deserialize, PartialEq)]
@@ -415,7 +428,8 @@ impl<S: StoreAccess> Runner<S> {
 
     /// put a pre-existing credential into the store and the model
     pub fn preload(&mut self, seed: u64, site: usize, counter: Option<u32>, with_handle: bool) {
-        let s = &SITES[site % SITES.len()];
+        let ctap_only = Site { url: None, android_host: None, rp: None, effective: CTAP_ONLY_RPS[site % CTAP_ONLY_RPS.len()] };
+        let s = if site >= 100 { &ctap_only } else { &SITES[site % SITES.len()] };
         let id = sha256(&[b"preload".as_slice(), &seed.to_be_bytes()].concat())[..16 + (seed as usize % 17)].to_vec();
         let uh = with_handle.then(|| format!("handle-{}", seed % 3).into_bytes());
         let hm = self.cfg.hmac.enabled().then(|| (sha256(&[b"uv".as_slice(), &seed.to_be_bytes()].concat()).to_vec(), self.cfg.hmac.without_uv().then(|| sha256(&[b"nouv".as_slice(), &seed.to_be_bytes()].concat()).to_vec())));
@@ -438,7 +452,18 @@ impl<S: StoreAccess> Runner<S> {
     pub fn register(&mut self, op: &RegOp) -> Result<(), String> {
         let site = &SITES[op.site % SITES.len()];
         let before = self.store_snapshot();
-        let mut req = cer::creation_options(site.rp, &op.challenge, &op.user_id, &op.user_name, &op.algs, None, selection_of(op), None);
+        let exclude = match (op.exclude % 4, self.kind) {
+            (0, _) => None,
+            (1, _) => Some(vec![]),
+            (3, StoreKind::Ref) => Some(self.model.iter().filter(|m| m.rp != site.effective).take(2).map(|m| cer::descriptor_full(&m.id, true, op.uv)).chain([cer::descriptor(b"excluded-but-never-held")]).collect()),
+            _ => Some(vec![cer::descriptor(b"excluded-but-never-held"), cer::descriptor_full(b"another-id-nobody-holds", op.uv % 2 == 0, op.uv)]),
+        };
+        let ext = (op.ext & 7 != 0).then(|| passkey_types::webauthn::AuthenticationExtensionsClientInputs {
+            cred_props: (op.ext & 1 != 0).then_some(true),
+            prf: (op.ext & 2 != 0).then(|| passkey_types::webauthn::AuthenticationExtensionsPrfInputs { eval: Some(passkey_types::webauthn::AuthenticationExtensionsPrfValues { first: op.challenge.clone().into(), second: (op.ext & 4 != 0).then(|| op.user_id.clone().into()) }), eval_by_credential: None }),
+            prf_already_hashed: None,
+        });
+        let mut req = cer::creation_options(site.rp, &op.challenge, &op.user_id, &op.user_name, &op.algs, exclude, selection_of(op), ext);
         {
             use passkey_types::webauthn::AttestationConveyancePreference as A;
             req.public_key.attestation = [A::None, A::Indirect, A::Direct, A::Enterprise][op.attestation as usize % 4];
@@ -656,6 +681,23 @@ impl<S: StoreAccess> Runner<S> {
                 if used != id {
                     return Err("a different credential than the one named was used".into());
                 }
+                if self.oracles.c03 {
+                    let bytes = r.auth_data.to_vec();
+                    let ad = authdata::decode(&bytes)?;
+                    if ad.rp_id_hash != sha256(self.model[mi].rp.as_bytes()) {
+                        return Err(format!("authenticator data of a CTAP2 assertion for RP ID {:?} does not carry SHA-256 of that RP ID", self.model[mi].rp));
+                    }
+                    if ad.att.is_some() {
+                        return Err("authenticator data of an assertion carries attested credential data".into());
+                    }
+                    let mut msg = bytes.clone();
+                    msg.extend_from_slice(&[0x5A; 32]);
+                    crate::model::util::verify_der(&self.model[mi].x, &self.model[mi].y, &msg, &r.signature).map_err(|e| format!("CTAP2 assertion: {e}"))?;
+                    let uh = r.user.as_ref().map(|u| u.id.to_vec());
+                    if uh != self.model[mi].user_handle {
+                        return Err("the user handle of a CTAP2 assertion is not the stored one".into());
+                    }
+                }
                 if self.oracles.c08 {
                     self.check_counter(mi, &r.auth_data.to_vec(), &before, &after)?;
                 } else if let Some(c) = self.model[mi].counter {
@@ -809,7 +851,7 @@ pub fn alg_list() -> impl Strategy<Value = Vec<i64>> {
 
 pub fn reg_op(sites: Vec<usize>) -> impl Strategy<Value = RegOp> {
     let n = sites.len();
-    (any::<u16>(), bytes(128), bytes(64), "\\PC{0,12}", alg_list(), cd_mode(), any::<u8>(), 0u8..5, prop_oneof![2 => Just(0u8), 1 => any::<u8>()]).prop_map(move |(s, challenge, user_id, user_name, algs, cd, uv, rk, unknown_type_mask)| RegOp { site: sites[idx(s, n)], attestation: if uv % 2 == 0 { 0 } else { (uv / 2) % 4 }, challenge, user_id, user_name, algs, cd, uv, rk, unknown_type_mask })
+    (any::<u16>(), bytes(128), bytes(64), "\\PC{0,12}", alg_list(), cd_mode(), any::<u8>(), 0u8..5, prop_oneof![2 => Just(0u8), 1 => any::<u8>()], (prop_oneof![3 => Just(0u8), 2 => 0u8..8], prop_oneof![3 => Just(0u8), 2 => 0u8..4])).prop_map(move |(s, challenge, user_id, user_name, algs, cd, uv, rk, unknown_type_mask, (ext, exclude))| RegOp { site: sites[idx(s, n)], attestation: if uv % 2 == 0 { 0 } else { (uv / 2) % 4 }, challenge, user_id, user_name, algs, cd, uv, rk, unknown_type_mask, ext, exclude })
 }
 
 pub fn allow_sel() -> impl Strategy<Value = AllowSel> {
